@@ -3,7 +3,16 @@
    totality theorems of C12, C13, C16, C17); this file lists them with their assumptions.
    F9 (known finding): the nasType.MobileIdentity5GS text getters are total only from a minimal Buffer
    length (the _partial statements); below it they panic (C12_total_*_refuted). *)
+From NV Require C19.Globals.
 From NV Require C14.FromC12 C14.FromC13 C14.FromC16 C14.FromC17.
+
+(* the functions this property is about are functions of their arguments: the files it is anchored in declare
+   no package-level variable other than the pinned read-only tables (or a never-touched one of plain type) and
+   none of their functions writes, slices, takes the address of, passes on or calls a method of a
+   package-level variable (logger entries excepted) -- evaluated on the current source (C19/Globals.v) *)
+Theorem C14_anchor_files_keep_no_state :
+  Globals.hidden_state_free Globals.anchors_C14 = true.
+Proof. vm_compute. reflexivity. Qed.
 
 Print Assumptions NV.C14.FromC12.C14_C12_total_SuciToStringWithError.
 Print Assumptions NV.C14.FromC12.C14_C12_total_SuciToString.
@@ -42,3 +51,4 @@ Print Assumptions NV.C14.FromC16.C14_C16_pco_total.
 Print Assumptions NV.C14.FromC16.C14_C16_psi_total.
 Print Assumptions NV.C14.FromC17.C14_C17_decoders_total.
 Print Assumptions NV.C14.FromC17.C14_C17_decode_timestamp_total.
+Print Assumptions C14_anchor_files_keep_no_state.
